@@ -262,3 +262,142 @@ func init() {
 		})
 	}
 }
+
+// rewoundIteratorCheck: an iterator that was obtained and used BEFORE the container was modified and is
+// re-positioned (Begin / End / First / Last) AFTER the modification is, from that call on, an iterator
+// over a container that is not modified meanwhile: it must expose exactly what a fresh iterator exposes
+// (the fresh iterator itself is judged against the reference by the box oracle and the iterator graphs).
+// Differential oracle, no expected value: for every state, every earlier position of the iterator (values
+// read on the way, so that whatever an iterator may cache is filled), every operation of the alphabet —
+// and, for small states, every pair of operations (a Pop followed by a Push restores the size).
+func rewoundIteratorCheck(build func() Inst, st *Stats, props []string, pairsUpTo int) *Viol {
+	b0 := build().(Box)
+	if b0.NewIter() == nil {
+		return nil
+	}
+	n := len(b0.ExpSeq())
+	collect := func(it *IterDyn, budget int) (fwd, bwd []Pair, first, last *Pair) {
+		it.Begin()
+		for it.Next() {
+			a, c := it.Cur()
+			fwd = append(fwd, Pair{a, c})
+			if len(fwd) > budget {
+				break
+			}
+		}
+		if it.First() {
+			a, c := it.Cur()
+			first = &Pair{a, c}
+		}
+		if it.Rev {
+			it.End()
+			for it.Prev() {
+				a, c := it.Cur()
+				bwd = append(bwd, Pair{a, c})
+				if len(bwd) > budget {
+					break
+				}
+			}
+			if it.Last() {
+				a, c := it.Cur()
+				last = &Pair{a, c}
+			}
+		}
+		return
+	}
+	same := func(x, y []Pair) bool {
+		if len(x) != len(y) {
+			return false
+		}
+		for i := range x {
+			if !pairEq(x[i], y[i]) {
+				return false
+			}
+		}
+		return true
+	}
+	samePtr := func(x, y *Pair) bool {
+		if x == nil || y == nil {
+			return x == nil && y == nil
+		}
+		return pairEq(*x, *y)
+	}
+	one := func(ops []Op, k int, fromEnd bool) *Viol {
+		inflightSeq.Add(1)
+		b := build().(Box)
+		it := b.NewIter()
+		if fromEnd && !it.Rev {
+			return nil
+		}
+		return safeCheck(func() *Viol {
+			if fromEnd {
+				it.End()
+				for i := 0; i < k && it.Prev(); i++ {
+					it.Cur()
+				}
+			} else {
+				for i := 0; i < k && it.Next(); i++ {
+					it.Cur()
+				}
+			}
+			var what []string
+			for _, o := range ops {
+				what = append(what, b.Describe(o))
+				if v := safeStep(b, o, nil); v != nil {
+					return nil // reported by the ordinary search; what an iterator does on a broken container is not judged here
+				}
+			}
+			budget := len(b.ExpSeq()) + 4
+			gf, gb, gfirst, glast := collect(it, budget)
+			wf, wb, wfirst, wlast := collect(b.NewIter(), budget)
+			st.Nested["rewound_iterator_cases"]++
+			if !same(gf, wf) || !same(gb, wb) || !samePtr(gfirst, wfirst) || !samePtr(glast, wlast) {
+				dir := "Next"
+				if fromEnd {
+					dir = "Prev from the end"
+				}
+				return viol(props, "mismatch", "an iterator moved %d steps (%s, values read) before %s and re-positioned afterwards enumerates forward %v, backward %v, First %v, Last %v; a fresh iterator over the same container enumerates forward %v, backward %v, First %v, Last %v",
+					k, dir, strings.Join(what, "; "), gf, gb, fmtPairPtr(gfirst), fmtPairPtr(glast), wf, wb, fmtPairPtr(wfirst), fmtPairPtr(wlast))
+			}
+			return nil
+		}, props, "re-positioned iterator after a modification")
+	}
+	ops := b0.Ops()
+	for _, o := range ops {
+		if o.N == "New" {
+			continue // a constructor call makes another container
+		}
+		for k := 0; k <= n+1; k++ {
+			for _, fromEnd := range []bool{false, true} {
+				if v := one([]Op{o}, k, fromEnd); v != nil {
+					return v
+				}
+			}
+		}
+		if n <= pairsUpTo {
+			// second operation: from the alphabet of the state reached by the first
+			b1 := build().(Box)
+			if v := safeStep(b1, o, nil); v != nil {
+				continue
+			}
+			for _, o2 := range b1.Ops() {
+				if o2.N == "New" {
+					continue
+				}
+				for k := 0; k <= n+1; k++ {
+					if v := one([]Op{o, o2}, k, false); v != nil {
+						return v
+					}
+				}
+			}
+		}
+	}
+	return nil
+}
+
+func fmtPairPtr(p *Pair) string {
+	if p == nil {
+		return "none"
+	}
+	return fmt.Sprint(*p)
+}
